@@ -18,7 +18,7 @@ RULE = (
     "point or one assembly order; distinct = (n, n_chunks[, order]); non-trivial = at least one pair (n>=2)"
 )
 ASSUMPTIONS = ["thetas in the assembly workload are harness stubs with prescribed predictions plus real sparse-combo samples"]
-REQUIRED = {"chunk_files_overwritten": {"quick": 200, "thorough": 3000}, "partition_grid_points": {"quick": 500, "thorough": 1800}, "assemblies_checked": {"quick": 150, "thorough": 2000}, "refusals_checked": {"quick": 50, "thorough": 500}, "large_matrix_roundtrips": {"quick": 8, "thorough": 80}, "cli_matrices_checked": {"quick": 6, "thorough": 50}}
+REQUIRED = {"cli_score_assemblies": {"quick": 8, "thorough": 60}, "chunk_files_overwritten": {"quick": 200, "thorough": 3000}, "partition_grid_points": {"quick": 500, "thorough": 1800}, "assemblies_checked": {"quick": 150, "thorough": 2000}, "refusals_checked": {"quick": 50, "thorough": 500}, "large_matrix_roundtrips": {"quick": 8, "thorough": 80}, "cli_matrices_checked": {"quick": 6, "thorough": 50}}
 N_EXH = {"quick": 14, "thorough": 22}  # grid sizes 548 / 1900 points
 
 
@@ -216,8 +216,8 @@ def cli_chunks(rec, tier, rng, DC, tmp):
     from batchie.data import Screen, ExperimentSpace
     from batchie.distance.mse import MSEDistance
 
-    for ci in range(1 if tier == "quick" else 4):
-        screen = Screen(**gen.realistic_screen_kwargs(rng, n_rows=(4, 12), observed="none"))
+    for ci in range(2 if tier == "quick" else 6):
+        screen = Screen(**gen.realistic_screen_kwargs(rng, n_rows=(4, 12), n_plates=(2, 4), observed="none"))
         sp = ExperimentSpace.from_screen(screen)
         sizes = [int(rng.integers(1, 4)) for _ in range(int(rng.integers(2, 4)))]
         files, thetas = [], []
@@ -255,6 +255,55 @@ def cli_chunks(rec, tier, rng, DC, tmp):
                 ref[i, j] = ref[j, i] = metric.distance(thetas[i].predict_viability(loaded), thetas[j].predict_viability(loaded))
         rec.count("cli_matrices_checked")
         rec.check(dense.shape == ref.shape and kit.bytes_equal(dense, ref), "C07/cli/entry-not-metric-of-samples-in-file-order", "the matrix assembled from the command-line chunks is not metric(pred_i, pred_j) with samples numbered in the order of the --thetas files", w)
+
+        # ---- the consumer of the chunk files: calculate_scores assembles --distance-matrix files itself. Any order, a
+        #      chunk given twice: same scores as from one complete file; a chunk left out: refused.
+        if n < 3:
+            continue
+        from batchie.cli import calculate_scores as cli_sc
+        from batchie.scoring.main import ChunkedScoresHolder
+
+        f_one = os.path.join(tmp, "cli_d_complete.h5")
+        f_th = os.path.join(tmp, "cli_th_all.h5")
+        ThetaHolder.concat([ThetaHolder(n_thetas=1).load_h5(f_) for f_ in files]).save_h5(f_th)
+
+        def scores_from(dfiles, tag):
+            o = os.path.join(tmp, "cli_sc_%s.h5" % tag)
+            if os.path.exists(o):
+                os.remove(o)
+            kit.run_cli(cli_sc.main, ["--data", f_s, "--thetas", f_th, "--distance-matrix"] + dfiles + ["--scorer", "GaussianDBALScorer", "--output", o, "--seed", 4])
+            h = ChunkedScoresHolder.load_h5(o)
+            return sorted((int(p_), float(v_).hex()) for p_, v_ in zip(h.plate_ids.tolist(), h.scores.tolist()))
+
+        try:
+            DC.ChunkedDistanceMatrix.concat([DC.ChunkedDistanceMatrix.load(o_) for o_ in outs]).save(f_one)
+            base = scores_from([f_one], "one")
+        except Exception as e:
+            rec.violation("C07/cli/raises", "calculate_scores on one complete distance file raised %r" % (e,), w)
+            continue
+        order = [int(x) for x in rng.permutation(n_chunks)]
+        for _ in range(int(rng.integers(0, 3))):
+            order.insert(int(rng.integers(0, len(order) + 1)), int(rng.integers(n_chunks)))
+        rec.count("cli_score_assemblies")
+        try:
+            got = scores_from([outs[c] for c in order], "perm")
+            rec.check(got == base, "C07/cli/scores-depend-on-chunk-order-or-repetition", lambda: "calculate_scores gives other scores for --distance-matrix chunks in order %r than for the complete matrix" % (order,), dict(w, order=order))
+        except Exception as e:
+            rec.violation("C07/cli/raises", "calculate_scores raised %r for --distance-matrix chunks in order %r (every pair is present)" % (e, order), dict(w, order=order))
+        nonempty = [c for c in range(n_chunks) if DC.ChunkedDistanceMatrix.load(outs[c]).current_index > 0] if hasattr(DC.ChunkedDistanceMatrix.load(outs[0]), "current_index") else list(range(n_chunks))
+        if len(nonempty) >= 2:
+            drop = int(rng.choice(nonempty))
+            keep = [c for c in range(n_chunks) if c != drop]
+            if rng.random() < 0.5:
+                keep.append(int(rng.choice(keep)))  # the missing chunk "replaced" by another one given twice
+            rec.count("cli_incomplete_refusals")
+            try:
+                scores_from([outs[c] for c in keep], "missing")
+                rec.violation("C07/refusal/incomplete-densified", "calculate_scores accepted --distance-matrix files %r although chunk %d (with pairs) is missing" % (keep, drop), dict(w, given=keep))
+            except ValueError:
+                pass
+            except Exception as e:
+                rec.violation("C07/refusal/wrong-exception", "calculate_scores raised %r instead of ValueError for an incomplete set of distance chunks" % (e,), w)
 
 
 def large_matrices(rec, tier, rng, DC, tmp, shard):
